@@ -266,6 +266,23 @@ def run_shard(shard: Dict[str, Any], rep: Report) -> None:
             rep.notes.append(f"sibling instance of {name} could not be built: {e!r}"[:200])
 
     build_siblings()
+    # library wrappers used on the *same* environment object (eagerly and under jit) are part of "all call histories on the env
+    # object": a wrapper that writes into something the environment handed out (extras dict, cached state) must not change
+    # what a later direct call returns
+    try:
+        from jumanji.wrappers import AutoResetWrapper, VmapAutoResetWrapper
+
+        for nobs in (True, False):
+            w = AutoResetWrapper(env, next_obs_in_extras=nobs)
+            ws_, wt_ = jax.jit(w.reset)(jax.random.PRNGKey(31))
+            jax.jit(w.step)(ws_, A.as_action(runner.spec, A.sample_random(runner.spec, rng)))
+            if shard.get("eager") or nobs:
+                ws_, wt_ = w.reset(jax.random.PRNGKey(32))  # eager: in-place writes reach the objects the env returned
+        vw = VmapAutoResetWrapper(env, next_obs_in_extras=True)
+        vs_, vt_ = jax.jit(vw.reset)(jax.random.split(jax.random.PRNGKey(33), 2))
+        rep.count("wrapper_calls_on_same_env_object")
+    except Exception as e:
+        viol("wrapper_on_same_env_raises", {"error": repr(e)[:300]})
     try:
         jax.jit(env.reset)(jax.random.PRNGKey(77))
         jax.jit(jax.vmap(env.reset))(jax.random.split(jax.random.PRNGKey(5), 2))
@@ -314,6 +331,46 @@ def run_shard(shard: Dict[str, Any], rep: Report) -> None:
         rep.count("fresh_instance_pairs")
         if digest_decoded(dec_pair(s, t)) != d1:
             viol("fresh_instance_step", {"call": tag})
+
+    # ---- 2c. the environment as a *static argument* of one jitted function shared by several instances -----------------
+    # (`jax.jit(rollout, static_argnums=0)` keys its cache on hash/eq of the environment object: instances that differ in any
+    # constructor argument must not share an executable). Siblings - other configurations and the same configuration with
+    # another time limit - go through the shared function first.
+    try:
+        st_reset = jax.jit(lambda e, k: e.reset(k), static_argnums=0)
+        st_step = jax.jit(lambda e, s_, a_: e.step(s_, a_), static_argnums=0)
+        sibs = []
+        if name in E.TIME_LIMIT_ENVS and "make_id" not in cfg and "custom" not in cfg:
+            for L2 in (2, 3):
+                if cfg.get("time_limit") != L2:
+                    c2 = dict(cfg)
+                    c2["time_limit"] = L2
+                    sibs.append(E.build(name, c2))
+        for oc in E.configs(name, "quick")[:2]:
+            if oc["id"] != cid:
+                sibs.append(E.build(name, oc))
+        for sb in sibs:
+            try:
+                ss_, _ = st_reset(sb, keys[0][0])
+                for _ in range(3):
+                    ss_, _ = st_step(sb, ss_, A.as_action(sb.action_spec, A.sample_random(sb.action_spec, rng)))
+                rep.count("static_argument_siblings")
+            except Exception as e:
+                rep.notes.append(f"static-argument sibling of {name} failed: {e!r}"[:200])
+        for (key, kint), (tag, d1) in zip(keys, first[: len(keys)]):
+            s, t = st_reset(env, key)
+            rep.evaluated(1)
+            rep.count("static_argument_pairs")
+            if digest_decoded(dec_pair(s, t)) != d1:
+                viol("static_argument_jit_equals_own_jit", {"call": "reset", "key": kint})
+        for (s0, a, tag, kint), (_, d1) in zip(calls, first[len(keys):]):
+            s, t = st_step(env, s0, A.as_action(runner.spec, a))
+            rep.evaluated(1)
+            rep.count("static_argument_pairs")
+            if digest_decoded(dec_pair(s, t)) != d1:
+                viol("static_argument_jit_equals_own_jit", {"call": tag})
+    except Exception as e:
+        viol("static_argument_jit_raises", {"error": repr(e)[:300]})
 
     # constructor arguments shared by both instances (NumPy databases, maze lists) must still hold what the caller put in
     if E.shared_args_count():
